@@ -66,7 +66,13 @@ func mathAtan(L *LState) int {
 }
 
 func mathAtan2(L *LState) int {
-	L.Push(LNumber(math.Atan2(float64(L.CheckNumber(1)), float64(L.CheckNumber(2)))))
+	y, x := float64(L.CheckNumber(1)), float64(L.CheckNumber(2))
+	r := math.Atan2(y, x)
+	if y < 0 && r > 0 {
+		// math.Atan2 takes the quadrant from Atan(y/x): a quotient that underflows to +0 loses the sign of y
+		r = -r
+	}
+	L.Push(LNumber(r))
 	return 1
 }
 
